@@ -148,9 +148,9 @@ class FakeSock:
         pass
 
     def shutdown(self, how):
+        self.shut.append(int(how))                    # SHUT_RD 0, SHUT_WR 1, SHUT_RDWR 2
         if self.dead:                                 # a socket whose peer has reset is not connected any more
             raise OSError(errno.ENOTCONN, os.strerror(errno.ENOTCONN))
-        self.shut.append(int(how))                    # SHUT_RD 0, SHUT_WR 1, SHUT_RDWR 2
 
     def close(self):
         if not self.closed and self.on_close:
